@@ -4,6 +4,7 @@ package main
 // themselves live in c08_util.go and are shared.
 
 import (
+	"fmt"
 	"go/constant"
 	"go/token"
 	"go/types"
@@ -216,4 +217,162 @@ func c04MethodCalls(fn *ssa.Function, pkgSuffix string, typeNames ...string) []s
 		}
 		return false
 	})
+}
+
+// ---------------------------------------------------------------------------
+// Path feasibility under an assumption on one parameter (round 2): a small
+// path-sensitive constant propagation over the SSA CFG.  Branch conditions
+// that become decidable (comparisons of the parameter with constants, boolean
+// phis fed by constants on the taken edges, negations) prune the infeasible
+// successor; everything else explores both.  Used to state "this fold is
+// applied for response type T" without naming the local that encodes T.
+
+type c04Feasible struct {
+	edges  map[[2]*ssa.BasicBlock]bool
+	blocks map[*ssa.BasicBlock]bool
+}
+
+func (f *c04Feasible) alt(a c08Alt) bool {
+	if f == nil {
+		return false
+	}
+	if a.At != nil {
+		return f.blocks[a.At.Block()]
+	}
+	return f.edges[[2]*ssa.BasicBlock{a.P, a.S}]
+}
+
+func c04FeasibleUnder(fn *ssa.Function, param *ssa.Parameter, val constant.Value) *c04Feasible {
+	res := &c04Feasible{edges: map[[2]*ssa.BasicBlock]bool{}, blocks: map[*ssa.BasicBlock]bool{}}
+	if fn == nil || len(fn.Blocks) == 0 {
+		return res
+	}
+	type env map[*ssa.Phi]constant.Value
+	var eval func(v ssa.Value, e env, d int) constant.Value
+	eval = func(v ssa.Value, e env, d int) constant.Value {
+		if d > 12 {
+			return nil
+		}
+		switch x := v.(type) {
+		case *ssa.Const:
+			return x.Value
+		case *ssa.Parameter:
+			if x == param {
+				return val
+			}
+		case *ssa.Phi:
+			return e[x]
+		case *ssa.Convert:
+			return eval(x.X, e, d+1)
+		case *ssa.ChangeType:
+			return eval(x.X, e, d+1)
+		case *ssa.UnOp:
+			if x.Op == token.NOT {
+				if a := eval(x.X, e, d+1); a != nil && a.Kind() == constant.Bool {
+					return constant.MakeBool(!constant.BoolVal(a))
+				}
+			}
+		case *ssa.BinOp:
+			a, b := eval(x.X, e, d+1), eval(x.Y, e, d+1)
+			if a == nil || b == nil {
+				return nil
+			}
+			switch x.Op {
+			case token.EQL, token.NEQ, token.LSS, token.LEQ, token.GTR, token.GEQ:
+				if a.Kind() == constant.Bool && b.Kind() == constant.Bool {
+					eq := constant.BoolVal(a) == constant.BoolVal(b)
+					if x.Op == token.EQL {
+						return constant.MakeBool(eq)
+					}
+					if x.Op == token.NEQ {
+						return constant.MakeBool(!eq)
+					}
+					return nil
+				}
+				if (a.Kind() == constant.Int || a.Kind() == constant.String) && a.Kind() == b.Kind() {
+					return constant.MakeBool(constant.Compare(a, x.Op, b))
+				}
+			}
+		}
+		return nil
+	}
+	sig := func(e env) string {
+		var ks []string
+		for p, v := range e {
+			ks = append(ks, p.Name()+"="+v.ExactString())
+		}
+		sort.Strings(ks)
+		s := ""
+		for _, k := range ks {
+			s += k + ";"
+		}
+		return s
+	}
+	type state struct {
+		b, from *ssa.BasicBlock
+		e       env
+	}
+	seen := map[string]bool{}
+	work := []state{{fn.Blocks[0], nil, env{}}}
+	for len(work) > 0 && len(seen) < 50000 {
+		st := work[len(work)-1]
+		work = work[:len(work)-1]
+		e := env{}
+		for k, v := range st.e {
+			e[k] = v
+		}
+		// phis take the value of the edge we came through (all read the old env)
+		upd := env{}
+		for _, in := range st.b.Instrs {
+			ph, ok := in.(*ssa.Phi)
+			if !ok {
+				break
+			}
+			var cv constant.Value
+			for i, p := range st.b.Preds {
+				if p == st.from {
+					cv = eval(ph.Edges[i], st.e, 0)
+				}
+			}
+			upd[ph] = cv
+		}
+		for ph, cv := range upd {
+			if cv != nil && (cv.Kind() == constant.Bool || cv.Kind() == constant.Int) {
+				e[ph] = cv
+			} else {
+				delete(e, ph)
+			}
+		}
+		fromIdx := -1
+		if st.from != nil {
+			fromIdx = st.from.Index
+		}
+		key := fmt.Sprintf("%d|%d|%s", st.b.Index, fromIdx, sig(e))
+		if seen[key] {
+			continue
+		}
+		seen[key] = true
+		res.blocks[st.b] = true
+		if st.from != nil {
+			res.edges[[2]*ssa.BasicBlock{st.from, st.b}] = true
+		}
+		if len(st.b.Instrs) == 0 {
+			continue
+		}
+		switch t := st.b.Instrs[len(st.b.Instrs)-1].(type) {
+		case *ssa.If:
+			cv := eval(t.Cond, e, 0)
+			for k, s := range st.b.Succs {
+				if cv != nil && cv.Kind() == constant.Bool {
+					if constant.BoolVal(cv) != (k == 0) {
+						continue
+					}
+				}
+				work = append(work, state{s, st.b, e})
+			}
+		case *ssa.Jump:
+			work = append(work, state{st.b.Succs[0], st.b, e})
+		}
+	}
+	return res
 }
